@@ -40,6 +40,7 @@ type Node struct {
 	Gen    int   // incremented on restart
 
 	Received     []string // plaintexts handed to the application
+	ReceivedRaw  [][]byte // the very slices Deliver returned (not copied): the caller owns them
 	ReceivedFrom []string // RemoteKey name at the time of each receipt
 	SendStarted  int
 	SendReturned int
@@ -245,6 +246,7 @@ func (l *Lab) Deliver(p *Packet, to *Node, keep bool) {
 	l.Cell.Touch()
 	if err == nil && out != nil {
 		to.Received = append(to.Received, string(out))
+		to.ReceivedRaw = append(to.ReceivedRaw, out)
 		to.ReceivedFrom = append(to.ReceivedFrom, KeyName(to.Ch.RemoteKey()))
 	}
 	to.noteKey()
@@ -312,6 +314,18 @@ func (l *Lab) FairSuffix(horizon time.Duration, done func() bool) (elapsed time.
 	return l.X.Now - start, done()
 }
 
+// ChangedAfterDelivery lists the plaintexts whose bytes changed after Channel.Deliver had
+// returned them (Deliver(nil, x) hands the caller a slice it owns).
+func (n *Node) ChangedAfterDelivery() []string {
+	var out []string
+	for i, raw := range n.ReceivedRaw {
+		if string(raw) != n.Received[i] {
+			out = append(out, fmt.Sprintf("%q now reads %q", n.Received[i], string(raw)))
+		}
+	}
+	return out
+}
+
 // Inject hands adversary-made bytes to node to and returns the packets the node emitted in
 // response (they are taken out of flight: the adversary keeps them).
 func (l *Lab) Inject(to *Node, data []byte, what string) []*Packet {
@@ -324,6 +338,7 @@ func (l *Lab) Inject(to *Node, data []byte, what string) []*Packet {
 	l.Cell.Touch()
 	if err == nil && out != nil {
 		to.Received = append(to.Received, string(out))
+		to.ReceivedRaw = append(to.ReceivedRaw, out)
 		to.ReceivedFrom = append(to.ReceivedFrom, KeyName(to.Ch.RemoteKey()))
 	}
 	to.noteKey()
